@@ -235,14 +235,20 @@ def grown_instance(profile, alts, expected_type, warm):
     Returns None when the API-built instance would not have the intended data type or alternative set
     (then the caller builds it directly)."""
     from preflibtools.instances import OrdinalInstance
-    if len(profile) < 2:
-        return None
     h = _stable(profile)
     inst = OrdinalInstance()
-    cut = max(1, len(profile) // 2)
-    first = [(o, m) for o, m in profile[:cut]]
-    second = [(o, m) for o, m in profile[cut:]]
-    if h % 3 != 0:
+    if len(profile) == 1:
+        # all voters identical: the single order is cast in two stages
+        (o, m), = profile
+        if m < 2:
+            return None
+        k = 1 + h % (m - 1)
+        first, second = [(o, k)], [(o, m - k)]
+    else:
+        cut = max(1, len(profile) // 2)
+        first = [(o, m) for o, m in profile[:cut]]
+        second = [(o, m) for o, m in profile[cut:]]
+    if len(profile) > 1 and h % 3 != 0:
         # hold back part of the multiplicity of the orders of the first stage
         held = []
         for k, (o, m) in enumerate(first):
@@ -262,8 +268,10 @@ def grown_instance(profile, alts, expected_type, warm):
         _add_batch(inst, second, v2[(h >> 12) % len(v2)])
     except Exception:
         return None
-    if inst.data_type != expected_type or set(inst.alternatives_name) != set(alts):
-        return None
+    if set(inst.alternatives_name) != set(alts):
+        return None         # e.g. an alternative nobody ranks: the API cannot build this instance
+    # (a data_type other than `expected_type` is NOT a reason to fall back: the ballots determine the type, so a
+    # mismatch is a bookkeeping defect of the entry point, and the property is checked on the object as built)
     want = [tuple(tuple(c) for c in o) for o, _ in profile]
     if [tuple(tuple(c) for c in o) for o in inst.orders] != want:
         # `held + second` can only reorder when an order of the second stage precedes ... never for
@@ -293,8 +301,10 @@ def strict_case_extras(rng, case):
     r = rng.random()
     if r < 0.3:
         case["mults"] = [rng.choice([1, 1, 2, 3, 5, 17, 100]) for _ in range(n)]
-    if rng.random() < 0.25 and n >= 2:
+    if rng.random() < 0.25 and (n >= 2 or case.get("mults", [1])[0] >= 2 or rng.random() < 0.5):
         case["grow"] = True
+        if n == 1 and case.get("mults", [1])[0] < 2:
+            case["mults"] = [rng.choice([2, 3, 5])]
         if "mults" not in case and rng.random() < 0.5:
             case["mults"] = [rng.choice([1, 2, 3, 4]) for _ in range(n)]
     return case
